@@ -92,7 +92,7 @@ Qed.
 
 Lemma prog_init_ignores fx d : fx_prog fx = true -> exists l, prog_init fx d = Some l.
 Proof.
-  intros F. unfold prog_init. induction (d_prog d) as [|[t c] l IH]; cbn [fold_right]; [eexists; reflexivity|].
+  intros F. unfold prog_init, prog_fold. induction (d_prog d) as [|[t c] l IH]; cbn [fold_right]; [eexists; reflexivity|].
   destruct IH as [l0 ->]. cbn [snd fst]. destruct c; [eexists; reflexivity|]. rewrite F. eexists; reflexivity.
 Qed.
 
@@ -124,12 +124,12 @@ Lemma clean_quiescent fx m d : fx_prog fx = true -> consistent m d -> keys_nodup
                 (forall p, events_of p (d_jrnl d') = acked m d p).
 Proof.
   intros Fg (Ht & Hj & _) ND Hb.
-  assert (G : exists c, graceful fx m d = mkDisk (d_tdat d) (d_tbak d) (Some (Whole c)) (Some (Whole (m_pipes m))) (d_jrnl d) (d_next d) (d_prog d)).
+  assert (G : exists c, graceful fx m d = mkDisk (d_tdat d) (d_tbak d) (Some (Whole c)) (Some (Whole (m_pipes m))) (d_jrnl d) (d_next d) (clobber_twin fx (d_prog d))).
   { unfold graceful. destruct (fx_sync fx).
     - unfold flush_all. rewrite Hb. cbn. eexists. reflexivity.
     - eexists. reflexivity. }
   destruct G as [c G]. rewrite G.
-  destruct (start_whole fx (mkDisk (d_tdat d) (d_tbak d) (Some (Whole c)) (Some (Whole (m_pipes m))) (d_jrnl d) (d_next d) (d_prog d))
+  destruct (start_whole fx (mkDisk (d_tdat d) (d_tbak d) (Some (Whole c)) (Some (Whole (m_pipes m))) (d_jrnl d) (d_next d) (clobber_twin fx (d_prog d)))
                         (m_parts m) (m_pipes m) Fg Ht Hj eq_refl ND) as (m' & d' & S & P1 & P2 & _ & E & _).
   exists m', d'. split; [exact S|]. split; [exact P1|]. split; [exact P2|].
   intros p. rewrite E. unfold acked. cbn [d_jrnl]. rewrite Hb. cbn. rewrite app_nil_r. reflexivity.
@@ -171,26 +171,28 @@ Proof.
     rewrite ?(proj1 (proj2 (tsave_other fx d _))); exact H.
 Qed.
 
-Lemma do_step_pdat fx m d s : fx_pipes fx = true -> d_pdat d = Some (Whole (m_pipes m)) ->
+Lemma do_step_pdat fx m d s : fx_pipes fx = true -> fx_reg fx = true -> d_pdat d = Some (Whole (m_pipes m)) ->
   d_pdat (snd (do_step fx (m, d) s)) = Some (Whole (m_pipes (fst (do_step fx (m, d) s)))).
 Proof.
-  intros F H. destruct s as [p ts| |n|n|p|s t]; cbn [do_step].
+  intros F Fr H. destruct s as [p ts| |n|n|p|n s t]; cbn [do_step].
   - apply do_write_pdat. exact H.
   - cbn. exact H.
   - destruct (mem_nat n (m_pipes m)); [exact H|]. rewrite F. reflexivity.
   - destruct (mem_nat n (m_pipes m)); [|exact H]. rewrite F. reflexivity.
   - destruct (mem_nat p (m_parts m)); [|exact H]. cbn [fst snd m_pipes].
     rewrite (proj1 (proj2 (proj2 (drop_disk fx d p _)))). exact H.
-  - destruct (mem_nat s (m_parts m)); [|exact H]. apply do_write_pdat. exact H.
+  - destruct (mem_nat s (m_parts m)); [|exact H]. rewrite Fr. cbn [negb andb].
+    match goal with |- context [do_write fx m d t ?x] => pose proof (do_write_pdat fx m d t x H) as E; destruct (do_write fx m d t x) as [m1 d1] end.
+    exact E.
 Qed.
 
-Lemma pipes_crash_fixed fx : fx_pipes fx = true -> pipes_crash_statement fx.
+Lemma pipes_crash_fixed fx : fx_pipes fx = true -> fx_reg fx = true -> pipes_crash_statement fx.
 Proof.
-  intros F m d steps H. cbn zeta. unfold killed, pipes_init.
+  intros F Fr m d steps H. cbn zeta. unfold killed, pipes_init.
   assert (G : forall l md, d_pdat (snd md) = Some (Whole (m_pipes (fst md))) ->
               d_pdat (snd (run_steps fx md l)) = Some (Whole (m_pipes (fst (run_steps fx md l))))).
   { induction l as [|s l IH]; intros [m0 d0] H0; [exact H0|]. cbn [run_steps fold_left]. apply IH.
-    apply (do_step_pdat fx m0 d0 s F H0). }
+    apply (do_step_pdat fx m0 d0 s F Fr H0). }
   rewrite (G steps (m, d) H). reflexivity.
 Qed.
 
@@ -307,7 +309,7 @@ Proof.
   destruct (flush_fold_spec (m_cur m) (m_buf m) NDb Hc (d_jrnl d) ND) as [N1 E1].
   unfold graceful. rewrite F. unfold flush_all. fold (flush_fold (m_cur m) (m_buf m) (d_jrnl d)).
   set (j1 := flush_fold (m_cur m) (m_buf m) (d_jrnl d)) in *. cbn [m_hull m_pipes d_tdat d_tbak d_jrnl d_next].
-  set (d1 := mkDisk (d_tdat d) (d_tbak d) (Some (Whole (m_hull m))) (Some (Whole (m_pipes m))) j1 (d_next d) (d_prog d)).
+  set (d1 := mkDisk (d_tdat d) (d_tbak d) (Some (Whole (m_hull m))) (Some (Whole (m_pipes m))) j1 (d_next d) (clobber_twin fx (d_prog d))).
   assert (J1 : forall p, In p (with_data d1) -> In p (m_parts m)).
   { intros p Hp. apply (with_data_events d1 p N1) in Hp. cbn [d1 d_jrnl] in Hp. rewrite E1 in Hp.
     destruct (events_of p (d_jrnl d)) eqn:Ev.
@@ -489,7 +491,7 @@ Qed.
 Lemma do_step_consistent fx m d s : consistent m d -> keys_nodup d ->
   consistent (fst (do_step fx (m, d) s)) (snd (do_step fx (m, d) s)) /\ keys_nodup (snd (do_step fx (m, d) s)).
 Proof.
-  intros C ND. destruct s as [p ts| |n|n|p|s t].
+  intros C ND. destruct s as [p ts| |n|n|p|n s t].
   - cbn [do_step]. apply do_write_consistent; assumption.
   - cbn [do_step]. apply flush_all_consistent; assumption.
   - cbn [do_step]. destruct (mem_nat n (m_pipes m)); [split; assumption|]. cbn [fst snd].
@@ -560,13 +562,13 @@ Proof.
     unfold get_list at 1; rewrite lookup_update_same, ?tsave_jrnl, app_assoc; reflexivity.
 Qed.
 
-Lemma drain_catches_up fx m d s t : mem_nat s (m_parts m) = true ->
-  lookup t (m_prog m) = Some (length (acked m d t)) ->
+Lemma drain_catches_up fx m d n s t : mem_nat s (m_parts m) = true ->
+  lookup n (m_prog m) = Some (length (acked m d t)) ->
   acked m d t = firstn (length (acked m d t)) (events_of s (d_jrnl d)) ->
-  let md := do_step fx (m, d) (SDrain s t) in
+  let md := do_step fx (m, d) (SDrain n s t) in
   acked (fst md) (snd md) t = events_of s (d_jrnl d) /\
-  lookup t (m_prog (fst md)) = Some (length (events_of s (d_jrnl d))) /\
-  lookup t (d_prog (snd md)) = Some (Whole (length (events_of s (d_jrnl d)))).
+  lookup n (m_prog (fst md)) = Some (length (events_of s (d_jrnl d))) /\
+  lookup n (d_prog (snd md)) = Some (Whole (length (events_of s (d_jrnl d)))).
 Proof.
   intros R L P md. unfold md. cbn [do_step]. rewrite R, L.
   pose proof (do_write_acked fx m d t (skipn (length (acked m d t)) (events_of s (d_jrnl d)))) as A.
@@ -610,7 +612,7 @@ Qed.
 
 Lemma do_step_cdat fx m d s : d_cdat (snd (do_step fx (m, d) s)) = d_cdat d.
 Proof.
-  destruct s as [p ts| |n|n|p|s t]; cbn [do_step].
+  destruct s as [p ts| |n|n|p|n s t]; cbn [do_step].
   - apply do_write_cdat.
   - reflexivity.
   - destruct (mem_nat n (m_pipes m)); [reflexivity|]. destruct (fx_pipes fx); reflexivity.
@@ -742,12 +744,52 @@ Proof.
 Qed.
 
 (* what the pipe does after it: no position, so the next catch-up starts after what is flushed at that moment *)
-Lemma drain_without_position fx m d s t : mem_nat s (m_parts m) = true -> lookup t (m_prog m) = None ->
-  let md := do_step fx (m, d) (SDrain s t) in
-  acked (fst md) (snd md) t = acked m d t /\ lookup t (m_prog (fst md)) = Some (length (events_of s (d_jrnl d))).
+Lemma drain_without_position fx m d n s t : mem_nat s (m_parts m) = true -> lookup n (m_prog m) = None ->
+  let md := do_step fx (m, d) (SDrain n s t) in
+  acked (fst md) (snd md) t = acked m d t /\ lookup n (m_prog (fst md)) = Some (length (events_of s (d_jrnl d))).
 Proof.
   intros R L md. unfold md. cbn [do_step]. rewrite R, L. rewrite skipn_all.
   pose proof (do_write_acked fx m d t []) as A. destruct (do_write fx m d t []) as [m1 d1]. cbn [fst snd] in *.
   split; [|cbn [m_prog]; apply lookup_update_same].
   unfold acked at 1. cbn [m_buf d_jrnl]. fold (acked m1 d1 t). rewrite A. apply app_nil_r.
+Qed.
+
+(* ---------- the loader's protection: data without a record ---------- *)
+Lemma data_without_record_refuses fx d m p : d_tdat d = Some (Whole m) -> In p (with_data d) -> ~ In p m -> start fx d = None.
+Proof.
+  intros Ht Hp N. unfold start. destruct (prog_init fx d); [|reflexivity].
+  assert (tindex_init d = None) as ->; [|reflexivity].
+  unfold tindex_init. rewrite Ht. cbn [decode].
+  destruct (forallb (fun j => mem_nat j m) (with_data d)) eqn:F; [|reflexivity].
+  rewrite forallb_forall in F. specialize (F p Hp). apply mem_nat_In in F. contradiction.
+Qed.
+
+(* ---------- a pipe's position across a graceful restart; the definitions' file and the positions' files are separate ---------- *)
+Lemma prog_init_lookup fx g : forall l n k, prog_fold fx g = Some l ->
+  lookup n g = Some (Whole k) -> lookup n l = Some k.
+Proof.
+  induction g as [|[q c] g IH]; intros l n k E L; [discriminate L|]. unfold prog_fold in E. cbn [fold_right fst snd] in E.
+  fold (prog_fold fx g) in E. cbn [lookup] in L.
+  destruct (prog_fold fx g) as [l0|] eqn:E0; [|discriminate E].
+  destruct (Nat.eqb q n) eqn:Q.
+  - injection L as ->. injection E as <-. cbn [lookup]. rewrite Q. reflexivity.
+  - destruct c as [v|j].
+    + injection E as <-. cbn [lookup]. rewrite Q. apply (IH l0 n k eq_refl L).
+    + destruct (fx_prog fx); [|discriminate E]. injection E as <-. apply (IH l0 n k eq_refl L).
+Qed.
+
+Definition progress_survives_statement (fx : fixes) : Prop :=
+  forall m d n k m' d', lookup n (d_prog d) = Some (Whole k) ->
+  start fx (graceful fx m d) = Some (m', d') -> lookup n (m_prog m') = Some k.
+
+Lemma graceful_prog fx m d : d_prog (graceful fx m d) = clobber_twin fx (d_prog d).
+Proof. unfold graceful. destruct (fx_sync fx); reflexivity. Qed.
+
+Lemma progress_survives fx : fx_reg fx = true -> progress_survives_statement fx.
+Proof.
+  intros F m d n k m' d' L S. unfold start in S.
+  destruct (prog_init fx (graceful fx m d)) as [l|] eqn:P; [|discriminate S].
+  destruct (tindex_init (graceful fx m d)); [|discriminate S]. destruct (pipes_init (graceful fx m d)); [|discriminate S].
+  injection S as <- _. cbn [m_prog]. unfold prog_init in P. rewrite graceful_prog in P. unfold clobber_twin in P. rewrite F in P.
+  apply (prog_init_lookup fx (d_prog d) l n k P L).
 Qed.
